@@ -113,13 +113,23 @@ def sample_program(rng):
             values["p%d" % k] = v
         prog.append(("ad", heads, body))
         atoms += [a for _, a in heads]
+    # first-order facts reached through different call patterns (u(X) and u(b)) within one sample
+    fo = []
+    if rng.random() < 0.5:
+        for c in ("a", "b"):
+            k += 1
+            prog.append(("ad", [("p%d" % k, A("u", c))], []))
+            values["p%d" % k] = rng.choice(grid)
+            atoms.append(A("u", c))
+        fo = [A("u", "X"), A("u", "X")]
     ders = []
     for j in range(rng.randint(1, 3)):
         d = A("d%d" % j)
         for _ in range(rng.randint(1, 2)):
             body = []
             for _ in range(rng.randint(1, 2)):
-                body.append((rng.choice(atoms + ders), rng.random() < 0.3))
+                a_ = rng.choice(atoms + ders + fo)
+                body.append((a_, rng.random() < 0.3 and not gen.is_var(a_[1][0] if a_[1] else "c")))
             body = [l for l in body if not l[1]] + [l for l in body if l[1]]
             prog.append(("rule", d, body))
         ders.append(d)
@@ -331,6 +341,8 @@ def main(tier, seed):
         if i % 3 == 0:
             items.append(("s/%d/%d+pe" % (seed, i), "c22/%s/%s" % (seed, i), True))
         items.append(("s/%d/%d/sub" % (seed, i), "c22/%s/%s" % (seed, i), False, "sub"))
+        if i % 2 == 0:
+            items.append(("s/%d/%d/sub+pe" % (seed, i), "c22/%s/%s" % (seed, i), True, "sub"))
     run.bounds = {"programs": len(items), "max_paths": 4096}
     paths = 0
     for st in pmap(work, items, item_timeout=300):
